@@ -610,7 +610,7 @@ proof fn lemma_frame_split(s: Seq<u8>)
             len0 - len <= base.len(),
             rest(*self) == base.skip(len0 - len),
         decreases len, conts(*self).len(),
-//@@ before /if [^{;]*continue_record\(\)/
+//@@ before /if self\.data\./
             let ghost s1 = *self;
 //@@ before /let l = /
             let ghost s2 = *self;
